@@ -36,7 +36,9 @@ def neutron_world(ctx, arrays=(), energy_dependent=(), **kw):
               _number_density=I.getattr(el, "number_density"),
               is_energy_dependent=False)
         if tag in energy_dependent:
-            XP, FPr, FPi = sp.Symbol(f"XP_{tag}", real=True), sp.Symbol(f"FPr_{tag}", real=True), sp.Symbol(f"FPi_{tag}", real=True)
-            w.set(nsf, nsf_table=(XP, FPr + sp.I * FPi), is_energy_dependent=True)
+            from ptstat.symval import Vec
+            XP = Vec(sp.symbols(f"XP_{tag}_1:4", positive=True))
+            FP = Vec([sp.Symbol(f"FPr_{tag}_{k}", real=True) + sp.I * sp.Symbol(f"FPi_{tag}_{k}", real=True) for k in (1, 2, 3)])
+            w.set(nsf, nsf_table=(XP, FP), is_energy_dependent=True)
         w.set(base, neutron=nsf)
     return w
